@@ -40,7 +40,7 @@ RULE = (
     "one base problem (classical+numeric+durative, quantifier variable) x all assignments of "
     "<= L names from U-NAME (17 adversarial identifiers) to 15 renameable items; level 3 uses the 9 "
     "collision-relevant names; every assignment UP itself accepts is written with both writers; a second PDDL+ "
-    "base (2 fluents, action, process, event) x all assignments of <= 2 of 9 names, PDDL writer; "
+    "base (2 fluents, action, process, event) x all assignments of <= 2 of 11 names, PDDL writer; "
     "non-trivial = at least one item had to be renamed by a writer"
 )
 ASSUMPTIONS = [
@@ -292,7 +292,7 @@ def check_case(assign, acc):
 # the model API (fluents f:bool, x:real; action act; process pr; event ev), every assignment of
 # <= 2 names of PP_NAMES to its five items
 PP_ITEMS = ["f", "x", "act", "pr", "ev"]
-PP_NAMES = ["heat", "Heat", "HEAT", "heat_0", "a-b", "a_b", "at", "and", "increase"]
+PP_NAMES = ["heat", "Heat", "HEAT", "heat_0", "a-b", "a_b", "at", "and", "increase", "process", "event"]
 
 
 def pp_assignments():
@@ -365,7 +365,8 @@ def check_pp(assign, acc):
             return
         viol("pddl:write:raises:" + io.exc_name(e), "PDDLWriter raised %s: %s" % (io.exc_name(e), e))
         return
-    kws = set(io.pristine("GENERAL_PDDL_KEYWORDS"))  # no durative action: the temporal keywords are free
+    # no durative action: the temporal keywords are free; processes / events add the PDDL+ ones
+    kws = set(io.pristine("GENERAL_PDDL_KEYWORDS")) | set(io.pristine("PDDL_PLUS_KEYWORDS"))
     # PDDL has one name table per domain: the writer's lookups are global, so all items are judged
     # as one namespace for the inverse clause; injectivity is demanded among fluents and among the
     # action-like items (actions, processes, events)
